@@ -376,7 +376,7 @@ fn qlaws_ev<T: StratNum>(case: &Value, out: &mut Vec<Value>) {
     };
     out.push(json!({"ev": "qlaws", "ty": T::NAME, "n": n, "lane": ranks_of(&rm, &lane).iter().map(|r| 2 * r).collect::<Vec<_>>(),
         "qs": qi, "qord": qv.windows(2).all(|w| w[0] <= w[1]), "res": base_res, "perm": perm_res, "rel": rel_res,
-        "isfloat": T::NAME == "n64", "wide": wide}));
+        "isfloat": T::NAME == "n64", "wide": wide, "big": bexp > 51}));
 }
 
 pub fn run(case: &Value, params: &Params, out: &mut Vec<Value>) {
@@ -469,6 +469,19 @@ pub fn gen(seed: u64, count: usize, tier: &str, params: &Params) -> Vec<Value> {
         let strat = *rng.pick(STRATS);
         let fb = *rng.pick(&["drawn", "drawn", "first", "last", "middle"]);
         match *rng.pick(&kinds) {
+            "quantile" if rng.chance(1, 6) => {
+                // interpolation between equal or close neighbours under many non-dyadic q's: the result must stay inside [lower, higher]
+                let ty = *rng.pick(&["i8", "u8", "i32", "i64", "u64", "n64"]);
+                let strat = *rng.pick(&["linear", "linear", "midpoint"]);
+                let n = rng.range(2, 12) as usize;
+                let v0 = rng.range(1, 120);
+                let style = rng.below(3);
+                let data: Vec<i64> = (0..n).map(|_| match style { 0 => v0, 1 => v0 + rng.range(0, 1), _ => v0 + rng.range(0, 3) }).collect();
+                let b = *rng.pick(&[100i64, 100, 1000, 7, 10]);
+                let qs: Vec<Value> = (0..24).map(|_| json!({"a": rng.range(0, b), "b": b, "u": 0})).collect();
+                cases.push(json!({"ev": "quantile", "ty": ty, "strat": strat, "api": "1d_bulk", "lay": Lay::plain(&[n], false).to_json(), "axis": 0,
+                                  "data": data, "bexp": *rng.pick(&[-1i64, -1, 20]), "qs": qs, "pv": [], "fb": fb, "pair": pair}));
+            }
             "quantile" => {
                 let nd = rng.range(1, 3) as usize;
                 let axis = rng.below(nd as u64) as usize;
@@ -491,7 +504,9 @@ pub fn gen(seed: u64, count: usize, tier: &str, params: &Params) -> Vec<Value> {
             }
             _ => {
                 let n = rng.range(1, maxn + 2) as usize;
-                let (mut lane, bexp) = random_lane_vals(&mut rng, n, ty, "linear");
+                let (mut lane, mut bexp) = random_lane_vals(&mut rng, n, ty, "linear");
+                // beyond 2^53 Linear goes through f64 and only its exact points (integral positions) are lawful
+                if (ty == "i64" || ty == "u64") && rng.chance(1, 3) { bexp = if ty == "i64" { *rng.pick(&[54, 60, 62]) } else { *rng.pick(&[54, 62, 63]) }; }
                 if matches!(ty, "i8" | "i16" | "i32" | "i64") {
                     let mx: i64 = match ty { "i8" => 127, "i16" => 32767, _ => i64::MAX };
                     while lane.iter().max().unwrap() - lane.iter().min().unwrap() > mx { for v in lane.iter_mut() { *v /= 2; } }
